@@ -216,7 +216,10 @@ where
         let bits_per_sample = header
             .bits_per_sample()
             .unwrap_or(bits_per_sample_from_header);
-        if bits_per_sample != bits_per_sample_from_header {
+        if bits_per_sample != bits_per_sample_from_header
+            || bits_per_sample > MAX_BITS_PER_SAMPLE
+        {
+            // mismatched, or wider than supported (`stream_info` is parsed but not verified).
             return Err(nom::Err::Error(error_position!(
                 remaining_input,
                 nom::error::ErrorKind::TagBits
